@@ -23,7 +23,13 @@ SPECS = [
     {'conv': 'cf1d', 'ny': 4, 'nx': 3, 'descending_lat': True}, {'conv': 'cf1d', 'ny': 3, 'nx': 4, 'descending_lon': True, 'nonuniform': True},
     # bounds whose grid dimensions are stored the other way round than latitude / longitude (non-square grid)
     {'conv': 'cf2d', 'ny': 3, 'nx': 4, 'bounds': 'vars', 'bounds_transposed': True},
+    # the longitude variable stored (x, y) while the latitude variable is stored (y, x): the grid is the latitude variable's, cell (j, i) has
+    # latitude lat[j, i] and longitude lon[i, j]; square (nothing fails on shape) and non-square, with stored and with synthesised corners
+    {'conv': 'cf2d', 'ny': 3, 'nx': 3, 'lon_transposed': True}, {'conv': 'cf2d', 'ny': 2, 'nx': 4, 'lon_transposed': True, 'holes': [[1, 2]]},
+    {'conv': 'cf2d', 'ny': 3, 'nx': 3, 'lon_transposed': True, 'bounds': 'vars'},
+    {'conv': 'shoc_standard', 'ny': 3, 'nx': 3, 'x_transposed': ['x_grid', 'x_centre']}, {'conv': 'shoc_standard', 'ny': 2, 'nx': 4, 'x_transposed': ['x_grid']},
     # the face-node table stored (max nodes, faces), the Fortran / FVCOM layout, with mixed triangles and quadrilaterals
+    {'conv': 'ugrid', 'ny': 2, 'nx': 3, 'split': [[0, 1]], 'face_coords': True, 'latitude_first': True},
     {'conv': 'ugrid', 'ny': 2, 'nx': 3, 'split': [[0, 1]], 'transposed': True}, {'conv': 'ugrid', 'ny': 3, 'nx': 2, 'split': [[1, 1]], 'transposed': True, 'start_index': 1},
 ]
 
@@ -45,6 +51,9 @@ def test(inp):
         want = corners_oracle({k: v for k, v in spec.items() if k not in ('bounds', 'bounds_transposed')})
     else:
         want = corners_oracle(spec)
+    if spec.get('latitude_first'):
+        # the first-listed coordinate variable (latitude here) is the first coordinate of every vertex
+        want = [None if r is None else [(y, x) for x, y in r] for r in want]
     shapes = datasets.expected_grids(spec)
     ny_nx = shapes['face']
     size = int(numpy.prod(ny_nx))
